@@ -184,6 +184,31 @@ ASSUME_CLIENT = ASSUME_COMMON + [
 ]
 
 
+def apalache_retry_core():
+    """thorough tier of C09: Apalache discharges the inductive invariant of spec/RetryCount.tla for a symbolic n"""
+    import subprocess, shutil, tempfile, time
+    from . import harness as h
+    out = tempfile.mkdtemp(prefix='apalache_')
+    obligations = [('Init => IndInv', ['--cinit=CInit', '--init=Init', '--inv=IndInv', '--length=0']),
+                   ('IndInv /\\ Next => IndInv\'', ['--cinit=CInit', '--init=IndInit', '--inv=IndInv', '--length=1']),
+                   ('IndInv => AtMostNPlus1 /\\ OnePauseBetweenSends', ['--cinit=CInit', '--init=IndInit', '--inv=Goal', '--length=0'])]
+    done, notes, t0 = 0, [], time.time()
+    for name, args in obligations:
+        try:
+            p = subprocess.run(['apalache-mc', 'check'] + args + ['--out-dir=' + out, 'RetryCount.tla'], cwd=h.tlc.SPEC_DIR,
+                               stdout=subprocess.PIPE, stderr=subprocess.STDOUT, text=True, timeout=600)
+            ok = p.returncode == 0 and 'EXITCODE: OK' in p.stdout
+        except Exception as e:       # noqa
+            ok = False
+        done += ok
+        notes.append('%s: %s' % (name, 'discharged' if ok else 'NOT discharged'))
+    shutil.rmtree(out, ignore_errors=True)
+    return {'obligations': len(obligations), 'discharged': done,
+            'checker_cmd': 'apalache-mc check --cinit=CInit --init=IndInit --inv=IndInv --length=1 RetryCount.tla (and the two companions)',
+            'trusted_base': ['Apalache 0.58 + z3', 'the refinement mapping RetryMC!RC (checked by TLC as invariant CountingCore for n <= 4)'],
+            'apalache': notes, 'apalache_wall_s': round(time.time() - t0, 1)}
+
+
 def c09(tier, seed):
     t = 'quick' if tier == 'quick' else 'thorough'
     return dict(stages=[retry_stage('c09_' + t)],
@@ -193,7 +218,7 @@ def c09(tier, seed):
                      'Fibonacci cap, cap below the first delay) x single / batch / notification x client-wide / per-request / '
                      'overriding / explicitly disabled / no strategy x sync / async; non-trivial = at least two sends'
                      % (2 if tier == 'quick' else 4),
-                assumptions=ASSUME_CLIENT, exhaustive=True)
+                assumptions=ASSUME_CLIENT, exhaustive=True, extra_cov=None if tier == 'quick' else apalache_retry_core())
 
 
 def c19(tier, seed):
